@@ -51,6 +51,27 @@ theorem kill_prompt (s : Sys) (hpc : s.pc = .selTerm) (ht : s.termSlot = true) :
       s'.ev = s.ev ++ [.termConsumed, .stopStart true] := by
   simp [step?, hpc, ht]
 
+/-- `kill_wins`: "it then runs on_stop(killed=true) ... reports killed=true": from any state in which a kill signal is
+    pending and the actor has not begun to stop, whichever step takes the actor into on_stop does so with
+    killed = true - also when that step is the loop finding the stop marker or the closed mailbox right after it had
+    polled the control channel (it looks at the control channel once more).  The only other way into on_stop is an
+    on_run error, a cause of its own.  With `kill_not_lost` (the signal stays pending until then) this holds from the
+    moment kill() returns.  Before the repair recorded in known_findings.txt (C06) the marker / closed-mailbox steps
+    entered on_stop(killed=false) here; the schedule is in DESIGN.md §13.3. -/
+theorem kill_wins (s s' : Sys) (l : Label) (hs : step? s l = some s')
+    (hlive : pcStopped s.pc = false) (hkill : s.termSlot = true) (k r m : Bool) (hpc : s'.pc = .stopping k r m) :
+    k = true ∨ (l = .pollRun ∧ r = true) := by
+  step_cases l hs
+  all_goals (try (simp at hpc; done))
+  all_goals (try (exfalso; simp at hpc; rw [hpc] at hlive; simp [pcStopped] at hlive; done))
+  all_goals (try (exfalso; split at hpc <;> simp at hpc <;> (rw [hpc] at hlive; simp [pcStopped] at hlive); done))
+  all_goals (simp at hpc; simp_all [Sys.strongCount])
+
+-- non-vacuity: a kill that lands after the control channel was polled, with a stop marker at the head of the mailbox
+example : ∃ s, run? (init 2 {}) [.gate, .startDone, .issue 0 { kind := .stop }, .push 0, .pollTerm,
+      .issue 0 { kind := .kill }, .pollMail] = some s ∧ s.pc = .stopping true false true := by
+  refine ⟨_, rfl, ?_⟩; decide
+
 /-- the one exception is reachable (so the bound of one is tight): kill lands after the term branch was polled -/
 theorem one_further_handler_reachable :
     ∃ s, run? (init 2 {}) [.gate, .startDone, .issue 0 { kind := .tell }, .push 0, .pollTerm,
